@@ -1,0 +1,39 @@
+//go:build verif
+
+// Contracts for the gowp verifier (/verif): comment-only file, compiled only with -tags verif.
+package rfc4757
+
+//@ func crypto/rfc4757.EncryptData(key, data, e) (ct, err)
+//@   pure
+//@   trusted_frame returned slices are not tracked as fresh; in-place append into spare capacity cannot be excluded
+//@   requires tagof(e) == typeid("crypto.RC4HMAC")
+//@   ensures err == nil <==> et_encok(tagof(e), len(key), len(data))
+//@   ensures err == nil ==> len(ct) == len(data)
+//@   ensures err != nil ==> len(ct) == 0
+//@ func crypto/rfc4757.DecryptData(key, data, e) (pt, err)
+//@   pure
+//@   trusted_frame returned slices are not tracked as fresh; in-place append into spare capacity cannot be excluded
+//@   requires tagof(e) == typeid("crypto.RC4HMAC")
+//@   ensures err == nil <==> et_decok(tagof(e), len(key), len(data))
+//@   ensures err == nil ==> len(pt) == len(data)
+//@   ensures err != nil ==> len(pt) == 0
+//@ func crypto/rfc4757.DecryptMessage(key, data, usage, export, e) (pt, err)
+//@   pure
+//@   trusted_frame returned slices are not tracked as fresh; in-place append into spare capacity cannot be excluded
+//@   requires tagof(e) == typeid("crypto.RC4HMAC")
+//@   ensures err != nil ==> len(pt) == 0
+//@ func crypto/rfc4757.EncryptMessage(key, data, usage, export, e) (ct, err)
+//@   pure
+//@   trusted_frame returned slices are not tracked as fresh; in-place append into spare capacity cannot be excluded
+//@   requires tagof(e) == typeid("crypto.RC4HMAC")
+//@ func crypto/rfc4757.HMAC(key, data) (r)
+//@   pure
+//@   trusted_frame returned slices are not tracked as fresh; in-place append into spare capacity cannot be excluded
+//@   ensures len(r) == 16
+//@ func crypto/rfc4757.UsageToMSMsgType(usage) (r)
+//@   pure
+//@   trusted_frame returned slices are not tracked as fresh; in-place append into spare capacity cannot be excluded
+//@   ensures len(r) == 4
+//@ func crypto/rfc4757.VerifyIntegrity(key, pt, data, e) (ok)
+//@   pure
+//@   trusted_frame returned slices are not tracked as fresh; in-place append into spare capacity cannot be excluded
